@@ -65,6 +65,9 @@ def standard_pool():
     p.add("info_a", lcov(b"src/a.c", [(1, 1), (2, 0), (5, 7)]))
     p.add("info_b", lcov(b"src/b.c", [(1, 3), (4, 4)], tn=False))            # starts with SF:
     p.add("info_a2", lcov(b"src/a.c", [(1, 2), (3, 1)]))                     # same source again: counts add up
+    p.add("info_c", lcov(b"src/c.c", [(1, 5), (2, 0)]))                        # shipped twice under the same name: counts double
+    p.add("info_dot", lcov(b"src/dot.c", [(1, 1)]))                           # lives under a dot-named directory
+    p.add("info_dotfile", lcov(b"src/dotfile.c", [(2, 2)]))                   # dot-prefixed file name
     p.add("xml_1", jacoco(b"r1", b"A.java", [(1, 1), (2, 0)], pad=300))
     p.add("xml_2", jacoco(b"r2", b"B.java", [(3, 2)], pad=256))              # exactly 256 bytes
     p.add("decoy_info", b"this is not a tracefile\nSF:nope\n")
@@ -96,6 +99,11 @@ def artifacts_std(pool, with_prof=False, gcc=True):
     a = [("info", "a.info", "info_a"), ("info", "logs/b.info", "info_b"), ("info", "a.info", "info_a2"),
          ("xml", "rep/one.xml", "xml_1"), ("xml", "two.xml", "xml_2"),
          ("xml", "short.xml", "short_jacoco"), ("xml", "rep/straddle.xml", "straddle_jacoco"), ("decoy", "late.xml", "decoy_xml_late"),
+         # byte-identical files under the same relative name in different archives: each occurrence is an input
+         ("info", "same/s.info", "info_c"), ("info", "same/s.info", "info_c"), ("xml", "same/r.xml", "xml_1"), ("xml", "same/r.xml", "xml_1"),
+         # dot-named directories and files are ordinary members, in a directory as in a zip
+         ("info", "lib/.libs/d.info", "info_dot"), ("info", ".cov.info", "info_dotfile"), ("xml", ".rep/h.xml", "xml_2"),
+         ("gcno", ".objs/fb2.gcno", "llvm_gcno_file_branch"), ("gcda", ".objs/fb2.gcda", "llvm_gcda_file_branch"),
          ("decoy", "decoy.info", "decoy_info"), ("decoy", "tn.info", "decoy_info_short"), ("decoy", "build.xml", "decoy_xml"),
          ("decoy", "notes.txt", "txt"), ("decoy", "data.json", "json_other"),
          ("decoy", "noext", "txt"), ("decoy", ".info", "info_a"), ("decoy", "x.gcno.bak", "llvm_gcno_file"),
@@ -122,10 +130,11 @@ def gen_layout(rng, arts, kinds=("dir", "zip", "plain"), max_containers=5):
     conts = [{"kind": rng.choice([k for k in kinds if k != "plain"]), "entries": {}} for _ in range(n)]
     plains = []
     for kind, name, cid in arts:
-        if "plain" in kinds and kind in PLAIN_OK and rng.random() < 0.25:
+        keep = name.startswith("same/")            # must meet its twin under the same relative name
+        if "plain" in kinds and kind in PLAIN_OK and not keep and rng.random() < 0.25:
             plains.append((kind, name, cid))
             continue
-        if kind in ("info", "xml", "decoy", "profraw") and rng.random() < 0.4:
+        if kind in ("info", "xml", "decoy", "profraw") and not keep and rng.random() < 0.4:
             name = rng.choice(["n1/", "n1/n2/", "zz/"]) + name
         order = list(range(n))
         rng.shuffle(order)
